@@ -841,7 +841,7 @@ func vC12Configs(tier string) []vHnswCfg {
 func init() {
 	vRegister(&vCheck{
 		ID: "C12", Level: "model_checking", Engine: "histmc",
-		Rule:        "BFS over Add(value, level in {0,1,2} chosen by the explorer)/Remove(every live id)/Flush(every legal entry-point re-election) histories on the real HNSWIndex. In every reached state: (a) unrestricted search non-empty whenever a live vector exists, (b) exact k-NN acceptance against brute force while the index has held <= 2M vectors since last empty/flush and ef >= that number, (c) every live node reachable from the entry point through layer-0 edges, entry point stored, no dangling edge. Non-trivial = distinct (config, state) with >= 2 live vectors for (c) and distinct (config, state, query, k) in the exactness regime.",
+		Rule:        "BFS over Add(value, level in {0,1,2} chosen by the explorer)/Remove(every live id)/Flush(every legal entry-point re-election) histories on the real HNSWIndex. In every reached state: (a) unrestricted search non-empty whenever a live vector exists, (b) exact k-NN acceptance against brute force while the index has held <= 2M vectors since last empty/flush and ef >= that number, (c) every live node reachable from the entry point through layer-0 edges, entry point stored, no dangling edge. Non-trivial = distinct (config, state) with >= 2 live vectors for (c) and distinct (config, state, query, k) in the exactness regime. Batches: one Execute with two queries (every ordered pair of the first query with the second / third, k below the live count) must equal the two queries run one at a time, aggregated per id, best k.",
 		Assumptions: []string{"map-order dependent entry-point re-election in Flush is enumerated by forcing each legal candidate", "levels above 2 and more than 2 non-zero levels per history are outside the bound", "reachability regime explored up to 2M+2 (quick) / 2M+4 (thorough) inserts with reduced value alphabets"},
 		Shards: func(tier string) []vShard {
 			var sh []vShard
